@@ -1,7 +1,24 @@
+"""Schema validation of MANIFEST.json and every evidence file, plus the consistency a committed
+evidence file must have: it records a run on the unchanged tree (every obligation discharged, no
+violation, no failed sample).  Run before every commit: python3-vt tools/validate.py"""
 import json, sys, glob, jsonschema
 jsonschema.validate(json.load(open('/verif/MANIFEST.json')), json.load(open('/root/.vp/MANIFEST.schema.json')))
 es = json.load(open('/root/.vp/EVIDENCE.schema.json'))
+bad = 0
 for f in sorted(glob.glob('/verif/evidence/*.json')):
-    jsonschema.validate(json.load(open(f)), es)
-    print('valid', f)
+    e = json.load(open(f))
+    jsonschema.validate(e, es)
+    c = e['coverage']
+    probs = []
+    if c['discharged'] != c['obligations']:
+        probs.append('discharged %s != obligations %s' % (c['discharged'], c['obligations']))
+    if c.get('bounded_discharged') != c.get('bounded_obligations'):
+        probs.append('bounded_discharged != bounded_obligations')
+    if e.get('violations'):
+        probs.append('%s violations recorded' % e['violations'])
+    if any(s.get('status') != 'discharged' for s in c.get('samples', [])):
+        probs.append('a sample is not discharged')
+    print('valid' if not probs else 'STALE', f, '; '.join(probs))
+    bad += bool(probs)
 print('manifest valid')
+sys.exit(1 if bad else 0)
